@@ -91,6 +91,8 @@ def run_kani_units(units, prop, tier, scratch, jobs, only=None):
         ok, out = built[key]
         if not ok:
             tail = '\n'.join(out.strip().split('\n')[-30:])
+            errs = [l for l in out.split('\n') if l.startswith('error')][:8]
+            log('[kani] compile errors: ' + ' | '.join(errs))
             for h in hs:
                 outcomes.append(Outcome(u.name, h.oblig, 'undecided', reason='front-end: harness crate does not compile',
                                         backend='kani', label=h.label, fn=h.fn, attempt=h.attempt, detail={'log': tail}))
